@@ -73,8 +73,9 @@ structure Params where
   failDur  : Nat    -- fail_duration in ticks; 0 = failures are not counted
   maxFails : Nat    -- max_fails (Provision turns 0 into 1)
   retries  : Nat    -- load_balancing.retries (try_duration = 0, try_interval = 0)
-  maxReq   : Nat    -- unhealthy_request_count → Upstream.MaxRequests (0 = unlimited)
-  strikes  : Nat    -- how many unhealthy_status entries match the bad status the backend sends
+  maxReq   : Nat    -- unhealthy_request_count → Upstream.MaxRequests of upstreams without their own (0 = unlimited)
+  firstMax : Nat    -- `max_requests` of the first configured upstream (0 = not set)
+  badStatus : List Nat  -- passive unhealthy_status entries (a value < 100 is a class: 5 = 5xx)
   deriving DecidableEq, Repr
 
 /-- healthchecks.go:590-596 — does `countFailure` do anything? -/
@@ -362,15 +363,34 @@ def runOld (s : State) : List Action → Option State
 def healthy (p : Params) (s : State) (o : HostId) : Bool :=
   !p.passive || decide (s.fails o < (p.maxFails : Int))
 
+/-- reverseproxy.go:1218-1231 provisionUpstream — the limit `Full()` uses for the upstream at
+    position `i`: its own `max_requests` if set, else the passive checker's
+    unhealthy_request_count -/
+def maxReqAt (p : Params) (i : Nat) : Nat :=
+  if i == 0 && p.firstMax != 0 then p.firstMax else p.maxReq
+
 /-- hosts.go:96-98 -/
-def full (p : Params) (s : State) (o : HostId) : Bool :=
-  p.maxReq != 0 && decide ((p.maxReq : Int) ≤ s.inflight o)
+def full (p : Params) (i : Nat) (s : State) (o : HostId) : Bool :=
+  maxReqAt p i != 0 && decide ((maxReqAt p i : Int) ≤ s.inflight o)
 
-def available (p : Params) (s : State) (o : HostId) : Bool := healthy p s o && !full p s o
+def available (p : Params) (i : Nat) (s : State) (o : HostId) : Bool := healthy p s o && !full p i s o
 
-/-- selectionpolicies.go FirstSelection.Select -/
-def firstAvailable (p : Params) (s : State) : List (Key × HostId) → Option (Key × HostId)
-  | [] => none
-  | u :: rest => if available p s u.2 then some u else firstAvailable p s rest
+/-- selectionpolicies.go FirstSelection.Select (`i` = position of the head of the list) -/
+def firstAvailableFrom (p : Params) (s : State) : Nat → List (Key × HostId) → Option (Key × HostId)
+  | _, [] => none
+  | i, u :: rest => if available p i s u.2 then some u else firstAvailableFrom p s (i + 1) rest
+
+def firstAvailable (p : Params) (s : State) (ups : List (Key × HostId)) : Option (Key × HostId) :=
+  firstAvailableFrom p s 0 ups
+
+/-- caddyhttp.go:230-240 StatusCodeMatches -/
+def statusCodeMatches (actual configured : Nat) : Bool :=
+  actual == configured ||
+    (decide (configured < 100) && decide (configured * 100 ≤ actual) && decide (actual < (configured + 1) * 100))
+
+/-- reverseproxy.go:916-923 — one `countFailure` per unhealthy_status entry that matches -/
+def strikeCount : List Nat → Nat → Nat
+  | [], _ => 0
+  | c :: rest, actual => (if statusCodeMatches actual c then 1 else 0) + strikeCount rest actual
 
 end CaddyModel.C09
